@@ -1,8 +1,76 @@
-/- Driver handlers for area `vertable` (stub: replace `handle`). -/
+/- Driver handlers for area `vertable` (C17): the room-version table read through the public API.
+   model = VGen.roomVersions (regenerated from eventversion.go) read by V.Vertable.traitsOfRow;
+   spec  = V.Vertable.Spec.table (hand-written from the Matrix specification). -/
 import VDriver.Util
+import VModel.Vertable
 namespace V.Driver.VertableOps
-open V V.Driver
+open V V.Driver V.Vertable
 
-def handle (_op : String) (_args : Array String) : Option String := none
+def modelTraits (ver : String) : Option Traits := (VGen.roomVersions.find? (·.key == ver)).bind traitsOfRow
+def specTraits (ver : String) : Option Traits := Spec.traitsOf ver
+
+/-- answer a probe from both tables -/
+def both (ver : String) (f : Traits → String) : Option String :=
+  let m := match modelTraits ver with
+    | some t => f t
+    | none => "skip:version not in the regenerated table, or a column is nil / names an unknown function"
+  let s := match specTraits ver with
+    | some t => f t
+    | none => "unspecified:version-not-in-the-specification-table"
+  some (m ++ "\t" ++ s)
+
+def okErr (b : Bool) : String := if b then "ok" else "err"
+
+def csv (s : String) : List String := if s == "-" then [] else s.splitOn ","
+
+def showKeys (p : List String × List String) : String :=
+  "top=" ++ ",".intercalate p.1 ++ ";content=" ++ ",".intercalate p.2
+
+/-- ops:
+    meta <ver>                                   getters
+    sigvalid <ver> <now> <at> <validUntil>       SignatureValidityCheck           true|false
+    canon <ver> <hex json> <okIfEnforced 0|1>    CheckCanonicalJSON               ok|err
+    knock <ver> <joinRule> <prevMembership>      CheckKnockingAllowed             ok|err
+    rjallowed <ver>                              CheckRestrictedJoinsAllowed      ok|err
+    rjserver <ver> <hex value or ~>              RestrictedJoinServername         ok:<hex>|err
+    parsepl <ver> <hex literal>                  ParsePowerLevels {"ban":literal}  ok:<n>|err
+    redactkeys <ver> <type> <top csv> <content csv>   RedactEventJSON: surviving keys
+    built <ver>                                  EventBuilder.Build: event format / event ID format
+-/
+def handle (op : String) (args : Array String) : Option String :=
+  match op, args.toList with
+  | "meta", [ver] => both ver (metaLine ver)
+  | "sigvalid", [ver, now, atTS, vu] =>
+    match now.toNat?, atTS.toNat?, vu.toNat? with
+    | some n, some a, some v => both ver (fun t => toString (sigValid t n a v))
+    | _, _, _ => some "bad-op"
+  | "canon", [ver, _json, okE] => both ver (fun t => okErr (canonOk t (okE == "1")))
+  | "knock", [ver, jr, prev] => both ver (fun t => okErr (knockOk t jr (if prev == "-" then "" else prev)))
+  | "rjallowed", [ver] => both ver (fun t => okErr t.restrictedJoinAllowed)
+  | "rjserver", [ver, v] =>
+    let arg : Option (Option Ident.BS) := if v == "~" then some none else (unhex v).map some
+    match arg with
+    | none => some "bad-op"
+    | some a => both ver (fun t => match rjServer t a with | some d => "ok:" ++ hex d | none => "err")
+  | "parsepl", [ver, lit] =>
+    match unhex lit with
+    | none => some "bad-op"
+    | some l =>
+      both ver (fun t => match parsePL t (bytesStr l) with
+        | none => "skip:not a probe literal"
+        | some (some n) => "ok:" ++ toString n
+        | some none => "err")
+  | "redactkeys", [ver, ty, top, content] =>
+    let topK := csv top
+    let conK := csv content
+    let m := match (VGen.roomVersions.find? (·.key == ver)).bind (fun r => keepListsOfName r.redactionAlgorithm) with
+      | some k => showKeys (survivors k ty topK conK)
+      | none => "skip:no regenerated keep lists for this version's redaction function"
+    let s := match (specTraits ver).bind (fun t => Spec.keepLists t.redaction) with
+      | some k => showKeys (survivors k ty topK conK)
+      | none => "unspecified:version-not-in-the-specification-table"
+    some (m ++ "\t" ++ s)
+  | "built", [ver] => both ver builtLine
+  | _, _ => none
 
 end V.Driver.VertableOps
